@@ -1,4 +1,5 @@
 import TinsModel.Follower.Spec
+import TinsModel.Follower.Defaults
 import Driver.Util
 /- line-protocol driver for property C07 (StreamFollower): model mode and spec (oracle) mode.
    Line formats: see harness/c07_follower.cpp. -/
@@ -53,9 +54,11 @@ def showEv {κ} (ooo cbs : Bool) : Ev κ → Option String
   | .closed _ sid => if cbs then some s!"closed {showSid sid}" else none
   | .term _ sid r ch by_ sk => some s!"term {showSid sid} {reasonName r} chunks={ch} bytes={by_} sacked={sk}"
 
-def parseCfg (ws : List String) : Cfg × Bool :=
-  ({ attach := kvNat ws "attach" 0 == 1, maxChunks := kvNat ws "maxc" 512, maxBytes := kvNat ws "maxb" 3145728,
-     keepAlive := kvNat ws "ka" 300000000, acl := kvNat ws "acl" 1 == 1, maxSacked := kvNat ws "maxs" 1024,
+/-- a limit a case line does not mention keeps the value of a default-constructed `StreamFollower`: `dflt` is
+    `Cfg.ofSource` (generated from the current source) on the model side and `Cfg.documented` on the oracle's side -/
+def parseCfg (dflt : Cfg) (ws : List String) : Cfg × Bool :=
+  ({ attach := kvNat ws "attach" 0 == 1, maxChunks := kvNat ws "maxc" dflt.maxChunks, maxBytes := kvNat ws "maxb" dflt.maxBytes,
+     keepAlive := kvNat ws "ka" dflt.keepAlive, acl := kvNat ws "acl" 1 == 1, maxSacked := kvNat ws "maxs" 1024,
      ackC := (kvNat ws "ack" 0) % 2 == 1, ackS := (kvNat ws "ack" 0) / 2 % 2 == 1, useSack := kvNat ws "usesack" 0 == 1,
      ignC := (kvNat ws "ign" 0) % 2 == 1, ignS := (kvNat ws "ign" 0) / 2 % 2 == 1, cbSet := kvNat ws "nocb" 0 != 1,
      recovery := ((kvOf ws "rec").bind (·.toNat?)).map (· % 4294967296) },
@@ -90,7 +93,7 @@ def parsePkt (ws : List String) : Option Pkt :=
   | _ => none
 
 structure MState where
-  cfg : Cfg := { attach := false, maxChunks := 512, maxBytes := 3145728, keepAlive := 300000000, acl := true }
+  cfg : Cfg := Cfg.ofSource
   ooo : Bool := false
   F : Model := Follower.empty
 
@@ -102,7 +105,7 @@ def findStatus (F : Model) (v6 : Bool) (a ap b bp : Nat) : String :=
 def step (st : MState) (line : String) : MState × String :=
   let ws := words line
   match ws with
-  | "case" :: rest => let (c, o) := parseCfg rest; ({ cfg := c, ooo := o, F := Follower.empty }, s!"case maxs={c.maxSacked}")
+  | "case" :: rest => let (c, o) := parseCfg Cfg.ofSource rest; ({ cfg := c, ooo := o, F := Follower.empty }, s!"case maxs={c.maxSacked}")
   | "decl" :: _ => (st, "decl")
   | ["find", fam, a, ap, b, bp] =>
     match hexToNat a, ap.toNat?, hexToNat b, bp.toNat? with
@@ -189,7 +192,7 @@ def specStep (o : Oracle) (line : String) : Oracle × String :=
     let ws := words op
     match ws with
     | "case" :: rest =>
-      let c := (parseCfg rest).1
+      let c := (parseCfg Cfg.documented rest).1
       -- the limit the check read from the source is the one compiled into the implementation
       if out.trimAscii.toString == s!"case maxs={c.maxSacked}" then ({ cfg := c }, "ok")
       else ({ cfg := c, broken := true }, "violates limit-constant DEFAULT_MAX_SACKED_INTERVALS is not what the check read from the source")
